@@ -41,11 +41,16 @@ CHECKS = {
             'input defaults are 0 in the models (an all-zero matrix row is ambiguous between the two readings the property gives otherwise, see DESIGN.md 8); n <= 4', EXPL, 'DESIGN.md 3 C16'),
     'C17': ('exploration', '2 circuits x parameter maps {node parameter, several nodes per key, several variables per key, edge attribute, node+edge, initial value+parameter} x grids {equal-length 2 and 3, permuted} x inputs {none, shared array} x vectorize x solver: for every row of the parameter table returned by grid_search the block of result columns labelled with that row key must equal a separate run of a fresh template updated with those values',
             'two base circuits; grids of at most 6 rows', EXPL, 'DESIGN.md 3 C17'),
+    'C18': ('exploration', 'scalar models with P in {1,4,9,10,11,14,16} parameters, declaration order vs order of first use permuted, 1-3 state variables, scenario selections and constant overrides: the generated .f90 and every c.* file are parsed (slots distinct, none in 11-14, declaration order, parnames/unames/STPNT/forwarding call/DFDP columns agree, NDIM/NPAR, overrides) and the f2py-wrapped stpnt/func are executed (declared values in the named slots, vector field equals the reference at probe points with single-parameter deviations through args(slot), dfdu/dfdp equal central differences); _auto_param_indices for every n <= 64',
+            'auto-07p itself is not installed: its reading of c.* is represented by the documented key syntax; real f2py builds (about 0.4 s each here)', EXPL, 'DESIGN.md 3 C18'),
     'C19': ('model_checking', 'explicit-state search of all update sequences up to depth 6/7 on the real DDEHistory class, every query of a lattice checked in every state against a list-based reference',
             'values outside the finite alphabets (3 deltas, 3 y vectors, 3 shapes, 3 dtypes) and sequences longer than the bound are not covered, except one 3000-step run through the real capacity', MC, 'DESIGN.md 3 C19'),
 }
 
 NOT_YET = {}
+
+CHECKS['C20'] = ('fault_enumeration', 'full support matrix backend{default,torch,jax,fortran} x solver{euler,heun,scipy,diffrax,rk4} x vectorize x delay kind{none,discrete,gamma,past()} through run, plus get_run_func and get_jacobian_func(sparse on/off): every cell outside the documented support table must raise before a result is returned; every single-fault mutant of a base model (each declared variable removed, each path component of each edge / output / input / update_var / node_values key misspelt in flat and hierarchical circuits, every reserved name, second output, cyclic operator graph, edge template with two outputs) must raise, inputs and update_var to a missing variable must at least warn',
+                 'one base model; the quick tier builds only a slice of the Fortran cells', 'exhaustive fault enumeration (support matrix + all single-fault mutants) on the real code', 'DESIGN.md 3 C20')
 
 
 def main():
